@@ -178,6 +178,8 @@ def shape_arg(args):
 
 def modfunc(ex, state, mod, name, args, kw, line):
     ctx = ex.ctx
+    if mod == 'utl' and ('fn:' + name) in ctx.registry:
+        return call_contract(ex, state, 'fn:' + name, args, kw, line)
     if mod in ('utl', '_time', 'time'):
         return SNum('t')
     if mod == 'math' and name == 'factorial':
@@ -188,6 +190,12 @@ def modfunc(ex, state, mod, name, args, kw, line):
         return call_contract(ex, state, 'fn:' + name, args, kw, line)
     if mod == 'np.linalg' and name == 'norm':
         return SNum('norm', nonneg=z3.BoolVal(True))
+    if mod in ('linalg', 'lin', 'sp.linalg') and name == 'expm':
+        a = npmodel.need_rank(ex, state, args[0], line)
+        if len(a.shape) != 2:
+            raise Unsupported('expm of a non-matrix at line %d' % line)
+        ctx.oblige(state, 'expm-square', line, a.shape[0] == a.shape[1], 'expected a square matrix')
+        return npmodel.new_arr(state, list(a.shape), a.cplx)
     if mod in ('linalg', 'lin', 'sp.linalg') and name == 'svd':
         return SList(state.alloc(), None, items=list(npmodel.svd(ex, state, args[0], kw.get('full_matrices', True), kw.get('overwrite_a', False) is True, line)))
     if mod in ('linalg', 'lin') and name in ('qr', 'rq'):
@@ -239,9 +247,14 @@ def modfunc(ex, state, mod, name, args, kw, line):
             lo, hi = 0, args[0]
         else:
             lo, hi = args[0], args[1]
-        a = npmodel.new_arr(state, [z3.If(zi(hi) > zi(lo), zi(hi) - zi(lo), z3.IntVal(0))], False, kind='int')
+        step = as_conc(args[2]) if len(args) > 2 else 1
+        if step is None or step < 1:
+            raise Unsupported('arange with a symbolic or non-positive step at line %d' % line)
+        n = z3.If(zi(hi) > zi(lo), (zi(hi) - zi(lo) + (step - 1)) / step, z3.IntVal(0))
+        a = npmodel.new_arr(state, [z3.simplify(n)], False, kind='int')
         a.ubound = hi
-        a.is_prefix = as_conc(lo) == 0
+        a.is_prefix = as_conc(lo) == 0 and step == 1
+        a.arange = (zi(lo), zi(hi), step)        # iterating over the array visits lo, lo + step, ... (< hi)
         return a
     if name == 'all':
         v = args[0]
@@ -273,6 +286,13 @@ def modfunc(ex, state, mod, name, args, kw, line):
         for x in items[1:]:
             r = modfunc(ex, state, 'np', 'minimum', [r, x], {}, line)
         return r
+    if name == 'einsum':
+        return npmodel.einsum(ex, state, args[0], list(args[1:]), line)
+    if name == 'kron':
+        a, b = npmodel.need_rank(ex, state, args[0], line), npmodel.need_rank(ex, state, args[1], line)
+        if len(a.shape) != 2 or len(b.shape) != 2:
+            raise Unsupported('kron of non-matrices at line %d' % line)
+        return npmodel.new_arr(state, [a.shape[0] * b.shape[0], a.shape[1] * b.shape[1]], z3.simplify(z3.Or(a.cplx, b.cplx)))
     if name == 'tensordot':
         return npmodel.tensordot(ex, state, args[0], args[1], kw.get('axes', args[2] if len(args) > 2 else 2), line)
     if name == 'transpose':
